@@ -307,6 +307,7 @@ class HCtx(AsyncContext):
         self.pairs = 0
         self.fail = rt.ctx_faults.get(name) if rt.ctx_faults else None
         self.calls = 0
+        self.entry_failed = False
 
     def __repr__(self):
         return "HCtx%r" % (self.cid,)
@@ -315,7 +316,14 @@ class HCtx(AsyncContext):
         self.rt.emit("ctx_enter", self.cid)
         self.entered = True
         self.rt.live_ctx[self.cid] = self
-        r = AsyncContext.__enter__(self)
+        try:
+            r = AsyncContext.__enter__(self)
+        except BaseException:
+            # the with-block is never entered and __exit__ never runs: the context is out of the game
+            self.entry_failed = True
+            self.rt.live_ctx.pop(self.cid, None)
+            self.rt.emit("ctx_entry_failed", self.cid)
+            raise
         if not self.active and self.fail is None:
             self.rt.violation("context-not-resumed-on-entry", {"ctx": self.cid})
         return r
@@ -339,9 +347,16 @@ class HCtx(AsyncContext):
         if f is not None and f[0] == what and self.calls >= f[1]:
             self.fail = ("done", 0)
             self.rt.emit("ctx_fault", self.cid, what)
-            raise UserErr(("ctx", what, self.cid[0]))
+            raise lang.make_user_exc(f[2] if len(f) > 2 else "exc", ("ctx", what, self.cid[0]))
 
     def resume(self):
+        if self.entry_failed:
+            self.rt.emit("ctx_callback_after_failed_entry", self.cid, "resume")
+            self.rt.violation("callback-on-a-context-whose-entry-failed", {"ctx": self.cid, "callback": "resume"})
+            return
+        if self.calls == 0 and self.fail is not None and self.fail[0] == "resume" and self.fail[1] <= 1:
+            # failing on entry: the context never becomes active at all
+            self._maybe_fail("resume")
         self.rt.emit("ctx_resume", self.cid)
         if self.active:
             self.rt.violation("context-resumed-twice-without-pause", {"ctx": self.cid})
@@ -352,6 +367,10 @@ class HCtx(AsyncContext):
         self._maybe_fail("resume")
 
     def pause(self):
+        if self.entry_failed:
+            self.rt.emit("ctx_callback_after_failed_entry", self.cid, "pause")
+            self.rt.violation("callback-on-a-context-whose-entry-failed", {"ctx": self.cid, "callback": "pause"})
+            return
         self.rt.emit("ctx_pause", self.cid)
         if not self.active:
             self.rt.violation("context-paused-twice-without-resume", {"ctx": self.cid, "in_exit": False})
